@@ -25,13 +25,18 @@ static int op_refdp(int argc, char **argv, FILE *out)
         if(kv_parse_ints(argv[6], &B)){ kv_free_ints(&A); return 1; }
         int n = A.n, m = B.n;
         struct aln_param *ap = NULL;
-        if(n < 1 || m < 1 || aln_param_init(&ap, atoi(argv[0]), 1, atoi(argv[1]), bitsf(argv[2]), bitsf(argv[3]), bitsf(argv[4])) != OK){
+        /* the type's own matrix and defaults from the library; the caller's overrides are applied HERE (a value >= 0 replaces that one penalty),
+           not by the library's override logic */
+        if(n < 1 || m < 1 || aln_param_init(&ap, atoi(argv[0]), 1, atoi(argv[1]), -1.0f, -1.0f, -1.0f) != OK){
                 kv_free_ints(&A); kv_free_ints(&B); fputs("param-fail", out); return 0;
         }
         for(int i = 0; i < n; i++) if(A.v[i] < 0 || A.v[i] > 22){ n = -1; break; }
         for(int j = 0; j < m && n > 0; j++) if(B.v[j] < 0 || B.v[j] > 22){ n = -1; break; }
         if(n < 0){ aln_param_free(ap); kv_free_ints(&A); kv_free_ints(&B); return 1; }
         double gpo = ap->gpo, gpe = ap->gpe, tgpe = ap->tgpe;
+        if(bitsf(argv[2]) >= 0.0f) gpo = bitsf(argv[2]);
+        if(bitsf(argv[3]) >= 0.0f) gpe = bitsf(argv[3]);
+        if(bitsf(argv[4]) >= 0.0f) tgpe = bitsf(argv[4]);
         /* S_T: internal run of L columns costs gpo + (L-1)*gpe + gpo; a leading or trailing run costs L*tgpe (no open/close charge).
            Every reading used by kalign's kernels/meetup deviates from S_T by: + {0,gpo} per terminal run, one extra tgpe for a terminal
            run crossing the middle row, and one join column of an internal run charged tgpe instead of gpe.
@@ -142,11 +147,14 @@ static int op_refsp(int argc, char **argv, FILE *out)
                 for(int k = 0; k < R[r].n; k++) if(R[r].v[k] < -1 || R[r].v[k] > 22) bad = 1;
         }
         struct aln_param *ap = NULL;
-        if(bad || aln_param_init(&ap, atoi(argv[0]), 1, atoi(argv[1]), bitsf(argv[2]), bitsf(argv[3]), bitsf(argv[4])) != OK){
+        if(bad || aln_param_init(&ap, atoi(argv[0]), 1, atoi(argv[1]), -1.0f, -1.0f, -1.0f) != OK){
                 for(int r = 0; r < nr; r++) kv_free_ints(&R[r]);
                 free(R); fputs(bad ? "bad-rows" : "param-fail", out); return 0;
         }
         double gpo = ap->gpo, gpe = ap->gpe, tgpe = ap->tgpe, sp = 0.0;
+        if(bitsf(argv[2]) >= 0.0f) gpo = bitsf(argv[2]);
+        if(bitsf(argv[3]) >= 0.0f) gpe = bitsf(argv[3]);
+        if(bitsf(argv[4]) >= 0.0f) tgpe = bitsf(argv[4]);
         for(int x = 0; x < nr; x++) for(int y = x + 1; y < nr; y++){
                 /* runs of the projected pair: state 0 aligned, 1 gap in x, 2 gap in y */
                 int st = -1, run = 0, seen_any = 0;
